@@ -73,25 +73,29 @@ def keyword_parameters(ctx: Ctx) -> None:
 
     from adaptix import DebugTrail, Retort
     n = 0
-    for kw in ("class", "from", "lambda", "import", "None", "async", "match"):
+    aliases = [(kw + "_", kw) for kw in ("class", "from", "lambda", "import", "None", "async", "match")]
+    # aliases that are no identifiers at all (JSON-style keys are the usual reason for an alias)
+    aliases += [("my_x", "my-x"), ("with_space", "with space"), ("abc1", "1abc"), ("dotted", "a.b"), ("quoted", "it's"), ("empty", "")]
+    for attr, kw in aliases:
         for with_default in (False, True):
             ns = {"pydantic": pydantic}
-            exec(f"class M(pydantic.BaseModel):\n    a: int\n    {kw}_: str = pydantic.Field({'\'dflt\', ' if with_default else ''}alias={kw!r})\n", ns)  # noqa: S102
+            exec(f"class M(pydantic.BaseModel):\n    a: int\n    {attr}: str = pydantic.Field({'\'dflt\', ' if with_default else ''}alias={kw!r})\n", ns)  # noqa: S102
             model = ns["M"]
+            key = attr[:-1] if attr.endswith("_") else attr         # the external key is the field id with the trailing underscore trimmed
             for dt in DebugTrail:
                 n += 1
                 try:
                     r = Retort(debug_trail=dt)
-                    obj = r.load({"a": 1, kw: "x"}, model)
+                    obj = r.load({"a": 1, key: "x"}, model)
                     back = r.dump(obj)
-                    ok = getattr(obj, kw + "_") == "x" and obj.a == 1 and back == {"a": 1, kw: "x"}
+                    ok = getattr(obj, attr) == "x" and obj.a == 1 and back == {"a": 1, key: "x"}
                     if with_default:
-                        ok = ok and getattr(r.load({"a": 1}, model), kw + "_") == "dflt"
+                        ok = ok and getattr(r.load({"a": 1}, model), attr) == "dflt"
                     if not ok:
                         ctx.violation({"what": "keyword_parameter_wrong_result", "via": "pydantic_alias"}, f"pydantic alias {kw!r} ({dt.name}): loaded {obj!r}, dumped {back!r}", {"alias": kw})
                 except Exception as e:  # noqa: BLE001
                     ctx.violation({"what": "keyword_parameter_breaks_generation", "via": "pydantic_alias", "exc": type(e).__name__},
-                                  f"pydantic field {kw}_ with alias {kw!r} (soft or hard keyword: {keyword.iskeyword(kw)}), {dt.name}: {type(e).__name__}: {str(e)[:150]}",
+                                  f"pydantic field {attr} with alias {kw!r} (soft or hard keyword: {keyword.iskeyword(kw)}), {dt.name}: {type(e).__name__}: {str(e)[:150]}",
                                   {"alias": kw, "with_default": with_default})
     ctx.replayed += n
 
